@@ -607,3 +607,17 @@ func rdWfB(r io.ByteReader) bool {
 //@   ensures sliceArr(result) == sliceArr(buf) && sliceOff(result)+len(result) == sliceOff(buf)+len(buf)
 //@   ensures len(result) == len(buf)-(old(specTLSize(buf, specTLSize(buf, 0)))-specTLSize(result, specTLSize(result, 0)))
 //@   ensures unchangedExcept(buf, 0, old(specTLSize(buf, 0)+specTLSize(buf, specTLSize(buf, 0))))
+
+// ---------------------------------------------------------------------------------------
+// hashing (the hash function itself is an external dependency: xxhash through a sync.Pool)
+// ---------------------------------------------------------------------------------------
+
+//@ func (Name).Hash
+//@   trusted
+
+//@ func (Name).PrefixHash
+//@   trusted
+//@   ensures len(result) == len(n)+1
+
+//@ func (Component).Hash
+//@   trusted
